@@ -203,21 +203,17 @@ def main(argv):
         known_lines.append('KNOWN-FINDING: property=%s %s%s' % (prop, e['what'], '' if still else ' (recorded input no longer fails)'))
 
     def is_known(r, rp):
+        """a violation is a *known* finding only when it is the recorded configuration and the recorded input
+        (regions of open findings are excluded by the contracts' preconditions, not here)"""
         for e in known:
-            if e.get('status', 'open') != 'open':
+            if e.get('status', 'open') != 'open' or e['contract'] != r['contract']:
                 continue
-            if e['contract'] != r['contract']:
+            if json.dumps(r['cfg'], sort_keys=True, default=str) != json.dumps(e.get('config'), sort_keys=True, default=str):
                 continue
-            if all(r['cfg'].get(k) == v for k, v in e.get('config_match', {}).items()):
-                reg_fn = e.get('region')
-                if reg_fn is None:
-                    return True
-                try:
-                    env = dict(harness._unjs(rp.get('inputs') or {})); env['cfg'] = r['cfg']
-                    if eval(reg_fn, {'__builtins__': {'abs': abs, 'min': min, 'max': max, 'all': all, 'any': any}}, env):
-                        return True
-                except Exception:
-                    pass
+            got = harness._unjs(rp.get('inputs') or {})
+            want = harness._unjs(e.get('input') or {})
+            if all(got.get(k) == v for k, v in want.items()):
+                return True
         return False
 
     # ---- verdict -------------------------------------------------------------------------------------------
